@@ -1,11 +1,15 @@
 //! C05 / C03 — the lcov WRITER model `Lcov.printLcov` tied BYTE FOR BYTE to the real `output_lcov`
 //! on ALL generated result sets, whatever the number of functions per file.
 //!
-//! `output_lcov` iterates `result.functions` (an `FxHashMap`) twice; its order is not a function of
-//! the data alone. `printLcov` takes the function list in list order, so the harness iterates the
-//! SAME map object the writer iterates and sends the functions to the model in that order
-//! (`lcov.print`, driver `gmodel`). Nothing else is passed: paths, lines, branches, counts and names
-//! are the generated data.
+//! Since 73c9152 `output_lcov` lists the functions of a file in name order (`sorted_functions`:
+//! byte-wise `String` order), not in the iteration order of `result.functions` (an `FxHashMap`).
+//! The model of the writer is `Cli.outputLcov` = `printLcov` on every record walked as the code
+//! walks it (`Cli.sortCov`: lines and branch lines ascending, functions by name, `sortFns`). The
+//! harness sends the functions in the order ITS OWN map object iterates them – an order that has
+//! nothing to do with the names and is never read off the written report – (`c05.output_lcov`,
+//! driver `gmodel`). Nothing else is passed: paths, lines, branches, counts and names are the
+//! generated data. An independent oracle checks that the FN and the FNDA lines of every section
+//! are strictly ascending in byte order.
 //!
 //! Demangling stays an opaque `String -> String`: with `demangle = true` the sets use (a) plain C
 //! names, which `symbolic_demangle` leaves unchanged, and (b) a few real mangled names whose
@@ -22,7 +26,7 @@ use serde_json::{json, Value};
 use std::collections::BTreeMap;
 use std::path::PathBuf;
 
-type RS = Vec<(PathBuf, PathBuf, CovResult)>;
+pub type RS = Vec<(PathBuf, PathBuf, CovResult)>;
 
 /// names `symbolic_demangle` leaves alone (no `_Z`, `__Z`, `_R`, `?`, `$s`, `_T` prefix)
 const PLAIN: &[&str] = &["main", "f", "g", "foo_bar", "x1", "my_func2", "init", "Cls_method", "a", "zz_top", "do_it", "h9"];
@@ -60,8 +64,8 @@ fn entry(rel: &str, c: &CovResult, rename: &dyn Fn(&str) -> String) -> String {
     format!("K{}=L{};B{};F{}", hex(rel.as_bytes()), ls, bs, fs)
 }
 
-fn request(rs: &RS, rename: &dyn Fn(&str) -> String) -> String {
-    let mut r = String::from("lcov.print");
+pub fn request(rs: &RS, rename: &dyn Fn(&str) -> String) -> String {
+    let mut r = String::from("c05.output_lcov");
     for (_, rel, c) in rs {
         r.push(' ');
         r.push_str(&entry(rel.to_str().unwrap(), c, rename));
@@ -142,6 +146,36 @@ fn summary_oracle(text: &str) -> Result<(), String> {
     Ok(())
 }
 
+/// fix 73c9152: inside a section the FN lines, and the FNDA lines, are listed by function name,
+/// strictly ascending in byte order (names of one file are distinct)
+fn fn_order_oracle(bytes: &[u8]) -> Result<(), String> {
+    let mut last_fn: Option<Vec<u8>> = None;
+    let mut last_fnda: Option<Vec<u8>> = None;
+    for line in bytes.split(|b| *b == b'\n') {
+        if line.starts_with(b"SF:") {
+            last_fn = None;
+            last_fnda = None;
+        }
+        for (tag, last) in [(&b"FN:"[..], &mut last_fn), (&b"FNDA:"[..], &mut last_fnda)] {
+            if line.starts_with(tag) {
+                let rest = &line[tag.len()..];
+                let name = match rest.iter().position(|b| *b == b',') {
+                    Some(i) => rest[i + 1..].to_vec(),
+                    None => return Err(format!("no comma in {:?}", String::from_utf8_lossy(line))),
+                };
+                if let Some(prev) = last.as_ref() {
+                    if *prev >= name {
+                        return Err(format!("{} of {:?} listed after {:?}", String::from_utf8_lossy(&tag[..tag.len() - 1]),
+                            String::from_utf8_lossy(&name), String::from_utf8_lossy(prev)));
+                    }
+                }
+                *last = Some(name);
+            }
+        }
+    }
+    Ok(())
+}
+
 struct Case {
     rs: RS,
     demangle: bool,
@@ -169,7 +203,14 @@ fn make_case(rep: &mut Report, rs: RS, demangle: bool) -> Option<Case> {
         }
         Ok(()) => {
             let bytes = std::fs::read(&p).unwrap_or_default();
-            let request = request(&rs, &rename_for(demangle));
+            // demangling on: the functions go to the model under their table (mangled) names, with
+            // the demangler as a table; the model sorts by table name and prints the demangled one
+            let request = if demangle {
+                let tab = MANGLED.iter().map(|m| format!("{}={}", hex(m.0.as_bytes()), hex(m.1.as_bytes()))).collect::<Vec<_>>().join(",");
+                request(&rs, &|n: &str| n.to_string()).replacen("c05.output_lcov", &format!("c05.output_lcov_dm T{} |", tab), 1)
+            } else {
+                request(&rs, &rename_for(false))
+            };
             Some(Case { rs, demangle, bytes, request })
         }
     }
@@ -184,6 +225,12 @@ fn oracle(rep: &mut Report, c: &Case) {
             return;
         }
     };
+    if !c.demangle {
+        // (with demangling on the sort key is the mangled name, the printed one the demangled)
+        if let Err(e) = fn_order_oracle(&c.bytes) {
+            rep.fail("oracle", None, format!("bytes_all: the functions of a file are not listed in name order: {}", e), case.clone());
+        }
+    }
     if let Err(e) = summary_oracle(&text) {
         rep.fail("oracle", None, format!("bytes_all: a summary line does not equal the count of the records listed: {}", e), case.clone());
     }
@@ -223,7 +270,7 @@ fn compare(rep: &mut Report, cases: &[Case], tag: &str) {
             rep.fail(
                 "disagreement",
                 None,
-                format!("bytes_all: output_lcov and Lcov.printLcov differ at byte {} (impl {:?} / model {:?})", k, ctx(&c.bytes), ctx(&m)),
+                format!("bytes_all: output_lcov and Cli.outputLcov differ at byte {} (impl {:?} / model {:?})", k, ctx(&c.bytes), ctx(&m)),
                 json!({"op": "c05.bytes_all", "demangle": c.demangle, "results": shown(&c.rs), "request": c.request}),
             );
         }
@@ -232,8 +279,8 @@ fn compare(rep: &mut Report, cases: &[Case], tag: &str) {
 
 pub fn run(rep: &mut Report) {
     rep.rule.push_str(
-        " | bytes_all: result sets of 0-6 files with up to 16 functions per file, sent to Lcov.printLcov in the order the \
-         writer's hash map iterates them, compared byte for byte with output_lcov (demangle off; demangle on with plain C names \
+        " | bytes_all: result sets of 0-6 files with up to 16 functions per file, sent to Cli.outputLcov in the order the \
+         harness's hash map iterates them (the model sorts by name as sorted_functions does), compared byte for byte with output_lcov (demangle off; demangle on with plain C names \
          and a table of mangled names); non-trivial = some file has two or more functions",
     );
     let t0 = std::time::Instant::now();
